@@ -215,6 +215,80 @@ def nearest_no_alpha(rep, prog, rule):
             rep.ok(rule, name, f.loc, "%d functions reachable, none touches alpha" % len(seen))
 
 
+def alpha_less_routes(rep, prog, rule):
+    """only Nearest (and the same-size copy) may write the destination without the alpha step"""
+    from ..engines import flow
+    from ..engines.tables import enum_variants
+    rep.rule(rule, "in the function that selects the algorithm every call of the alpha-less "
+             "resampler resample_nearest(.., dst) is reached only on the ResizeAlg::Nearest edge of "
+             "the switch on options.algorithm (or where the alpha flag is false): a shortcut that "
+             "sends another algorithm there (Box up-scaling 'is' nearest-neighbour) writes colours "
+             "of transparent pixels into the destination, because premultiply / divide live in "
+             "resample_convolution")
+    f = flow.pipeline_body(prog)
+    rep.touch(f)
+    sym = Sym(f)
+    variants = enum_variants(prog, "resizer::ResizeAlg") or {}
+    nearest = [k for k, v in variants.items() if v == "Nearest"]
+    calls = [c for c in f.calls() if c.name.endswith("resizer::resample_nearest")]
+    rep.floor(rule, "resample_nearest calls in the algorithm switch", len(calls), 1)
+    # variants of options.algorithm that can be the selected one at each block: forward dataflow
+    # over the switch edges (intersection on an edge, union at joins)
+    allv = frozenset(variants.keys())
+    cons = {}
+    def _is_alg(cc):
+        x = cc[1] if cc[0] == "discr" else None
+        while isinstance(x, tuple) and x and x[0] in ("ref", "deref", "cast"):
+            x = x[2] if x[0] == "cast" else x[1]
+        return isinstance(x, tuple) and x and ((x[0] == "field" and x[2] == "algorithm") or
+                                               (x[0] in ("param", "local") and "alg" in (x[2] or "")))
+    for (p_, s_, cc, v) in sym.edge_facts():
+        if _is_alg(cc):
+            if isinstance(v, int) and not isinstance(v, bool):
+                cons.setdefault((p_, s_), []).append(frozenset({v}))
+            elif isinstance(v, tuple) and v and v[0] == "not":
+                cons.setdefault((p_, s_), []).append(allv - set(v[1]))
+    IN = {0: allv}
+    work = [0]
+    while work:
+        b = work.pop()
+        if f.blocks[b]["c"]:
+            continue
+        for nx in f.succ[b]:
+            out = IN[b]
+            for vs in cons.get((b, nx), []):
+                out = out & vs
+            old = IN.get(nx)
+            new = out if old is None else (old | out)
+            if new != old:
+                IN[nx] = new
+                work.append(nx)
+    for i, c in enumerate(calls):
+        facts = sym.facts_at(c.bb)
+        on_nearest = alpha_off = False
+        other = None
+        possible = IN.get(c.bb, allv)
+        if possible and possible != allv:
+            if all(v in nearest for v in possible):
+                on_nearest = True
+            else:
+                other = "/".join(sorted(str(variants.get(v, v)) for v in possible if v not in nearest))
+        for cc, v in facts:
+            if (_mentions_param(cc, "use_alpha") or "mul_div_alpha" in fmt(cc)) and v is False \
+                    and cc[0] != "bin":
+                alpha_off = True
+        key = "resample_nearest#%d" % i
+        if on_nearest or alpha_off:
+            rep.ok(rule, key, c.at, "on the Nearest edge" if on_nearest else "alpha handling off")
+        elif other is not None:
+            rep.bad(rule, "resample_nearest|%s" % other, c.at,
+                    "ResizeAlg::%s is routed to resample_nearest, which never premultiplies / divides: "
+                    "with alpha handling on, colours stored under transparent source pixels reach the "
+                    "destination" % other)
+        else:
+            rep.unk(rule, key, c.at, "which algorithm reaches this call is not determined")
+
+
 def supersampling_alpha(rep, prog, rule):
     rep.rule(rule, "resample_super_sampling hands its destination only to resample_convolution with its own "
              "use_alpha flag (the premultiply / divide pipeline lives there): any other call that receives "
@@ -281,6 +355,7 @@ def run(rep, tier):
         rep.set_cfg(cfg)
         rep.call(pipeline, rep, prog, "C07.pipeline")
         rep.call(nearest_no_alpha, rep, prog, "C07.nearest-no-alpha")
+        rep.call(alpha_less_routes, rep, prog, "C07.alpha-less-routes")
         rep.call(alpha_rules.alpha_set, rep, prog, "C07.alpha-set")
         rep.call(simd_rules.lane_bypass, rep, prog, "C07.lane-bypass")
         rep.call(alpha_rules.zero_guard, rep, prog, "C07.zero-guard")
